@@ -13,7 +13,7 @@ from common import Ctx
 import core_lib as cl
 
 PROPERTY = "C01"
-LEAN_MODULES = ["Proofs.C01.Broker", "Proofs.C01.Run"]
+LEAN_MODULES = ["Proofs.C01.Broker", "Proofs.C01.Run", "Proofs.C01.SqueethValue", "Proofs.C01.SqueethDict", "Proofs.C01.UniSqueethValue", "Proofs.C01.EndToEnd", "Proofs.C01.EndToEndUni"]
 DRIVERS = ["driver_core"]
 RULE = ("[run] real Actuator.run over 1-2 in-memory markets (minutely with or without missing minutes, hourly; the second one quoted in a "
         "token other than the account's quote token) whose value accrues with the data of every bar, a wallet of three tokens, a strategy that "
